@@ -60,6 +60,11 @@ type frontEnd struct {
 }
 
 // buildFront compiles drivers/frontdrv together with a copy of the given peg.peg.go (the front end under test).
+// driverCPUSeconds: processor time one front-end driver process may use for one list of requests. A list can hold
+// thousands of Compile calls (C09 thorough: 16 goroutines x 6 repetitions x 100 grammars, some of them hundreds of
+// rules, under the race detector); 900 s were too few for that once the large grammars came in (a false alarm).
+const driverCPUSeconds = 7200
+
 func buildFront(c *ctx, pegGo string, race bool, tag string) *frontEnd {
 	// BuildDriver names the directory after the driver; use a private copy per tag
 	src := filepath.Join(c.env.Root, "drivers", "frontdrv")
@@ -108,7 +113,7 @@ func (f *frontEnd) run(reqs []feReq) []feRes {
 			in.Write(b)
 			in.WriteByte('\n')
 		}
-		cmd := exec.Command("bash", "-c", fmt.Sprintf("ulimit -t 900; exec %s %s", f.bin, prog))
+		cmd := exec.Command("bash", "-c", fmt.Sprintf("ulimit -t %d; exec %s %s", driverCPUSeconds, f.bin, prog))
 		cmd.Env = append(os.Environ(), "GORACE=atexit_sleep_ms=0 halt_on_error=0 exitcode=0", "GOTRACEBACK=single")
 		cmd.Stdin = &in
 		var so, se bytes.Buffer
@@ -148,7 +153,7 @@ func (f *frontEnd) run(reqs []feReq) []feRes {
 		if last < 0 || done[last] {
 			die("front-end driver died outside any request: %v\n%s", err, tail(se.String(), 2000))
 		}
-		if guard.ExternalKill(900*time.Second) || guard.WallKilled {
+		if guard.ExternalKill(driverCPUSeconds*time.Second) || guard.WallKilled {
 			f.ExternalKills++
 			res[last] = feRes{ID: last, Lost: true}
 			if f.c != nil {
